@@ -100,51 +100,125 @@ Proof. unfold do_code_process. cbv zeta. repeat dm; subst; grants_chain. Qed.
 Lemma refresh_process_grants c s cl tok rsc kw : grants (fst (do_refresh_process c s cl tok rsc kw)) = grants s.
 Proof. unfold do_refresh_process. cbv zeta. repeat dm; subst; grants_chain. Qed.
 
-Definition g_le (g g' : grant) : Prop :=
-  g_user g' = g_user g /\ g_client g' = g_client g /\ g_scope g' = g_scope g /\ g_areq_scope g' = g_areq_scope g /\
-  g_redirect g' = g_redirect g /\ g_exp g' = g_exp g /\ (g_revoked g = true -> g_revoked g' = true) /\
-  (g_removed g = true -> g_removed g' = true).
-Lemma g_le_refl g : g_le g g. Proof. unfold g_le; repeat split; auto. Qed.
-Lemma g_le_revoke g : g_le g (revoke_g g). Proof. unfold g_le, revoke_g; cbn; repeat split; auto. Qed.
-Lemma g_le_remove g : g_le g (remove_g g). Proof. unfold g_le, remove_g; cbn; repeat split; auto. Qed.
-Definition gext (s s' : st) : Prop :=
-  forall gi g, nth_error (grants s) gi = Some g -> exists g', nth_error (grants s') gi = Some g' /\ g_le g g'.
-Lemma gext_same s s' : grants s' = grants s -> gext s s'.
-Proof. intros E gi g H. rewrite E. eauto using g_le_refl. Qed.
+(* what was authorised for a grant: the request's scopes filtered by the client's allowed scopes *)
+Definition grants_good (c : cfg) (s : st) : Prop :=
+  forall gi g, nth_error (grants s) gi = Some g -> g_scope g = filter_scopes c (g_client g) (g_areq_scope g).
 
-Lemma step_gext c s o : gext s (fst (step c s o)).
+(* g' is g later in a history.  Unconditionally: who it is for, what request it answers (scope asked for, redirect_uri)
+   never change, revoked / removed are never cleared (the expiry may be pushed out: an authorization request that comes
+   with the session cookie and equals the stored request authorises the grant again) ... *)
+Definition g_lew (g g' : grant) : Prop :=
+  g_user g' = g_user g /\ g_client g' = g_client g /\ g_areq_scope g' = g_areq_scope g /\
+  g_redirect g' = g_redirect g /\ (g_revoked g = true -> g_revoked g' = true) /\
+  (g_removed g = true -> g_removed g' = true).
+(* ... and the granted scope does not change either, given that it is what the request authorised (P) *)
+Definition g_le_p (P : Prop) (g g' : grant) : Prop := g_lew g g' /\ (P -> g_scope g' = g_scope g).
+Definition g_le (g g' : grant) : Prop := g_le_p True g g'.
+Lemma g_le_p_refl P g : g_le_p P g g. Proof. unfold g_le_p, g_lew; repeat split; auto. Qed.
+Lemma g_le_p_revoke P g : g_le_p P g (revoke_g g). Proof. unfold g_le_p, g_lew, revoke_g; cbn; repeat split; auto. Qed.
+Lemma g_le_p_remove P g : g_le_p P g (remove_g g). Proof. unfold g_le_p, g_lew, remove_g; cbn; repeat split; auto. Qed.
+Lemma g_le_refl g : g_le g g. Proof. apply g_le_p_refl. Qed.
+Definition gext_p (P : Prop) (s s' : st) : Prop :=
+  forall gi g, nth_error (grants s) gi = Some g -> exists g', nth_error (grants s') gi = Some g' /\ g_le_p P g g'.
+Definition gext (s s' : st) : Prop := gext_p True s s'.
+Definition gextw (s s' : st) : Prop :=
+  forall gi g, nth_error (grants s) gi = Some g -> exists g', nth_error (grants s') gi = Some g' /\ g_lew g g'.
+Lemma gext_p_same P s s' : grants s' = grants s -> gext_p P s s'.
+Proof. intros E gi g H. rewrite E. eauto using g_le_p_refl. Qed.
+Lemma gext_same s s' : grants s' = grants s -> gext s s'.
+Proof. apply gext_p_same. Qed.
+
+Lemma filter_scopes_idem c cl sc : filter_scopes c cl (filter_scopes c cl sc) = filter_scopes c cl sc.
+Proof.
+  unfold filter_scopes. induction sc as [|x r IH]; cbn; auto.
+  destruct (str_in x (c_allowed c cl)) eqn:E; cbn; [rewrite E, IH|]; auto.
+Qed.
+Lemma same_request_eq g sc rd fresh : same_request g sc rd fresh = true -> sc = g_areq_scope g /\ rd = g_redirect g.
+Proof.
+  unfold same_request. intros H. apply andb_true_iff in H as [H H3]. apply andb_true_iff in H as [_ H2].
+  apply str_eqb_eq in H2. apply (list_eqb_eq str_eqb str_eqb_eq) in H3. auto.
+Qed.
+(* authorising a grant again with the request it was made for leaves its scope as it is *)
+Lemma reuse_scope_same c g sc :
+  g_scope g = filter_scopes c (g_client g) (g_areq_scope g) -> sc = g_areq_scope g -> reuse_scope c g sc = g_scope g.
+Proof.
+  intros Hg ->. unfold reuse_scope. destruct (g_scope g) as [|x r] eqn:E.
+  - now rewrite <- Hg.
+  - rewrite Hg. apply filter_scopes_idem.
+Qed.
+
+Lemma authorize_at_gext P c s u cl sc rd v : gext_p P s (fst (do_authorize_at c s u cl sc rd v)).
+Proof.
+  unfold do_authorize_at.
+  match goal with |- context [mint ?a ?b ?c0 ?d ?e ?f ?g ?h] => destruct (mint a b c0 d e f g h) as [[s2 id]| |] eqn:Hm end; cbn [fst];
+    intros gi0 g0 H; try (apply mint_ok in Hm as (_&_&Hm&_); rewrite Hm); cbn [grants];
+    (exists g0; split; [now apply nth_app_old|apply g_le_p_refl]).
+Qed.
+
+Lemma step_gext_p c s o : gext_p (grants_good c s) s (fst (step c s o)).
 Proof.
   destruct o; cbn [step].
-  - unfold do_authorize.
-    match goal with |- context [mint ?a ?b ?c0 ?d ?e ?f ?g ?h] => destruct (mint a b c0 d e f g h) as [[s2 id]| |] eqn:Hm end; cbn [fst];
-      intros gi0 g0 H; try (apply mint_ok in Hm as (_&_&Hm&_); rewrite Hm); cbn [grants];
-      (exists g0; split; [now apply nth_app_old|apply g_le_refl]).
-  - apply gext_same. unfold do_token_parse. repeat dm; reflexivity.
-  - apply gext_same. unfold do_refresh_parse. repeat dm; reflexivity.
-  - apply gext_same. unfold do_process. repeat dm; cbn [fst]; auto using code_process_grants, refresh_process_grants.
-  - apply gext_same. unfold do_userinfo. repeat dm; reflexivity.
-  - apply gext_same. unfold do_introspect. repeat dm; reflexivity.
-  - apply gext_same. unfold do_revoke_ep. repeat dm; reflexivity.
-  - apply gext_same. unfold do_api_revoke. repeat dm; reflexivity.
-  - destruct (nth_error (grants s) gi) as [g1|] eqn:E; cbn [fst]; [|now apply gext_same].
-    destruct (g_removed g1); cbn [fst]; [now apply gext_same|].
+  - apply authorize_at_gext.
+  - apply gext_p_same. unfold do_token_parse. repeat dm; reflexivity.
+  - apply gext_p_same. unfold do_refresh_parse. repeat dm; reflexivity.
+  - apply gext_p_same. unfold do_process. repeat dm; cbn [fst]; auto using code_process_grants, refresh_process_grants.
+  - apply gext_p_same. unfold do_userinfo. repeat dm; reflexivity.
+  - apply gext_p_same. unfold do_introspect. repeat dm; reflexivity.
+  - apply gext_p_same. unfold do_revoke_ep. repeat dm; reflexivity.
+  - apply gext_p_same. unfold do_api_revoke. repeat dm; reflexivity.
+  - destruct (nth_error (grants s) gi) as [g1|] eqn:E; cbn [fst]; [|now apply gext_p_same].
+    destruct (g_removed g1); cbn [fst]; [now apply gext_p_same|].
     intros k g H. unfold revoke_grant_at, map_toks, upd_grant; cbn. destruct (Nat.eq_dec gi k) as [->|N].
-    + rewrite nth_upd_same, H. cbn. eauto using g_le_revoke.
-    + rewrite nth_upd_other by auto. eauto using g_le_refl.
-  - destruct (nth_error (grants s) gi) as [g0|] eqn:E; cbn [fst]; [|now apply gext_same].
-    destruct (existsb (live_branch g0) (grants s)); cbn [fst]; [|now apply gext_same].
+    + rewrite nth_upd_same, H. cbn. eauto using g_le_p_revoke.
+    + rewrite nth_upd_other by auto. eauto using g_le_p_refl.
+  - destruct (nth_error (grants s) gi) as [g0|] eqn:E; cbn [fst]; [|now apply gext_p_same].
+    destruct (existsb (live_branch g0) (grants s)); cbn [fst]; [|now apply gext_p_same].
     intros k g H. unfold revoke_branch; cbn. rewrite nth_error_map, H. cbn.
-    destruct (live_branch g0 g); eauto using g_le_refl, g_le_revoke.
-  - (* RemoveGrant *) destruct (nth_error (grants s) gi) as [g1|] eqn:E; cbn [fst]; [|now apply gext_same].
+    destruct (live_branch g0 g); eauto using g_le_p_refl, g_le_p_revoke.
+  - (* RemoveGrant *) destruct (nth_error (grants s) gi) as [g1|] eqn:E; cbn [fst]; [|now apply gext_p_same].
     intros k g H. unfold upd_grant; cbn. destruct (Nat.eq_dec gi k) as [->|N].
-    + rewrite nth_upd_same, H. cbn. eauto using g_le_remove.
-    + rewrite nth_upd_other by auto. eauto using g_le_refl.
-  - (* RevokeUser *) destruct (nth_error (grants s) gi) as [g0|] eqn:E; cbn [fst]; [|now apply gext_same].
-    destruct (existsb (live_user g0) (grants s)); cbn [fst]; [|now apply gext_same].
+    + rewrite nth_upd_same, H. cbn. eauto using g_le_p_remove.
+    + rewrite nth_upd_other by auto. eauto using g_le_p_refl.
+  - (* RevokeUser *) destruct (nth_error (grants s) gi) as [g0|] eqn:E; cbn [fst]; [|now apply gext_p_same].
+    destruct (existsb (live_user g0) (grants s)); cbn [fst]; [|now apply gext_p_same].
     intros k g H. unfold revoke_user; cbn. rewrite nth_error_map, H. cbn.
-    destruct (live_user g0 g); eauto using g_le_refl, g_le_revoke.
-  - now apply gext_same.
+    destruct (live_user g0 g); eauto using g_le_p_refl, g_le_p_revoke.
+  - now apply gext_p_same.
+  - (* AuthorizeCookie *)
+    unfold do_authorize_cookie. destruct (nth_error (grants s) prev) as [g|] eqn:Eg; [|apply authorize_at_gext].
+    destruct (g_removed g || negb (str_eqb (g_client g) client)); [apply authorize_at_gext|].
+    destruct (negb (grant_active (now s) g)); [now apply gext_p_same|].
+    destruct (negb (now s <? g_valid_until g)); [now apply gext_p_same|].
+    destruct (same_request g scope redirect fresh) eqn:Es; [|apply authorize_at_gext].
+    assert (Hk : gext_p (grants_good c s) s (upd_grant prev (regrant c (now s) scope) s)).
+    { intros k g0 H. unfold upd_grant; cbn. destruct (Nat.eq_dec prev k) as [->|N].
+      - rewrite nth_upd_same, H. cbn. eexists; split; [reflexivity|]. rewrite Eg in H. inversion H; subst g0.
+        split; [unfold g_lew, regrant; cbn; repeat split; auto|].
+        intros Hgood. cbn. apply same_request_eq in Es as [Hs _]. apply reuse_scope_same; auto. eapply Hgood; eauto.
+      - rewrite nth_upd_other by auto. eauto using g_le_p_refl. }
+    match goal with |- context [mint ?a ?b ?c0 ?d ?e ?f ?g ?h] => destruct (mint a b c0 d e f g h) as [[s2 id]| |] eqn:Hm end; cbn [fst];
+      try exact Hk.
+    apply mint_ok in Hm as (_&_&Hm&_). intros k g0 H. rewrite Hm. now apply Hk.
 Qed.
+
+(* for every operation, unconditionally *)
+Lemma step_gextw c s o : gextw s (fst (step c s o)).
+Proof. intros gi g H. destruct (step_gext_p c s o gi g H) as (g'&H'&(L&_)). eauto. Qed.
+Lemma gextw_refl s : gextw s s.
+Proof. intros gi g H. exists g. split; auto. unfold g_lew; repeat split; auto. Qed.
+Lemma g_lew_trans a b c : g_lew a b -> g_lew b c -> g_lew a c.
+Proof. unfold g_lew. intros (A1&A2&A3&A4&A5&A6) (B1&B2&B3&B4&B5&B6). repeat split; try congruence; auto. Qed.
+Lemma gextw_trans a b c : gextw a b -> gextw b c -> gextw a c.
+Proof. intros H1 H2 gi g H. destruct (H1 _ _ H) as (g1&E1&L1). destruct (H2 _ _ E1) as (g2&E2&L2). eauto using g_lew_trans. Qed.
+Lemma run_gext c ops : forall s, gextw s (fst (run c s ops)).
+Proof.
+  induction ops as [|o r IH]; intros s; cbn [run]; [apply gextw_refl|].
+  destruct (step c s o) as [s1 x] eqn:E. specialize (IH s1). destruct (run c s1 r) as [s2 xs]. cbn [fst] in *.
+  eapply gextw_trans; [|exact IH]. pose proof (step_gextw c s o) as H. now rewrite E in H.
+Qed.
+(* in a state whose grants carry what their requests authorised *)
+Lemma step_gext c s o : grants_good c s -> gext s (fst (step c s o)).
+Proof. intros Hg gi g H. destruct (step_gext_p c s o gi g H) as (g'&H'&(L&Ls)). exists g'. split; auto. split; auto. Qed.
 
 (* ---- the token endpoint helpers keep the invariant ---- *)
 Ltac good_chain side :=
